@@ -461,6 +461,9 @@ def run(ctx):
     # ------------------------------------------------------------------ 3b. covariances and Legendre spectra on the sphere
     sphere_tests(ctx, exe, runner, by_code, viol, quick)
     ctx.log('sphere done')
+    # ------------------------------------------------------------------ 3b'. memory safety of the spectra at the smallest request (ASan build)
+    asan_spectrum_n0(ctx, by_code, viol)
+    ctx.log('ASan spectra done')
     # ------------------------------------------------------------------ 3c. multivariate models: exact PSD decision (LDL^T over Q)
     exact_psd_models(ctx, exe, runner, by_code, viol, quick)
     ctx.log('exact LDL^T done')
@@ -509,8 +512,9 @@ def run(ctx):
         'J-Bessel: rational partial sums of the alternating series (no square root, no Gamma function: the Gamma ratio is a Pochhammer product); theorem C03_besselj_bracket is about every later partial sum, '
         'the identification of their limit with the library function is the correspondence (1e-9)',
         'the cut-offs h > MAX_EXP / h > 100 of Exponential, Gaussian, Cosexp are not mirrored (difference < 4e-44)',
-        'Markov has no covariance on R^n (spectrum only) and is not modelled; on the sphere: Geometric, LinearSph, Exponential closed forms, Matern (integer parameter) by its Legendre series, '
-        'spectra of Geometric / Poisson / LinearSph / Matern; not modelled: Poisson covariance (J0 of an irrational argument), Exponential spectrum, CovAniso::evalCovOnSphere scaling by the radius',
+        'Markov has no covariance on R^n: only its Legendre spectrum on the sphere is modelled (exact, any coefficient list); on the sphere: Geometric, LinearSph, Exponential closed forms, '
+        'Matern (integer parameter) by its Legendre series, spectra of Geometric / Poisson / LinearSph / Matern / Markov (exact) and Exponential (enclosures); '
+        'not modelled: Poisson covariance (J0 of an irrational argument), CovAniso::evalCovOnSphere scaling by the radius; memory safety of evalSpectrumOnSphere(n = 0) is tested under ASan',
         'third parameter: Matern 1/2, 3/2, 5/2; Stable 1/2, 1, 3/2, 2; Cauchy/Gamma integer; Power 1 (constant term harvested from the implementation); J-Bessel any positive rational',
         'scadef of Matern/Stable/Cauchy/Gamma is harvested from the implementation and checked against its formula in floating point only']
 
@@ -725,14 +729,21 @@ def sphere_tests(ctx, exe, runner, by_code, viol, quick):
         if deg > 0:
             cases.append([3, code, dy(param), dy(scale), deg, [dy(a) for a in alphas]]); meta.append(('cov', code, param, scale, deg))
         deg = abs(deg)
-        if code in (28, 29, 30, 7):
-            # (LinearSph writes sp[1] whatever n: n = 0 is not a usable request for it)
-            for n in ((1, 7, deg) if code == 30 else (0, 1, 7, deg)):
-                cases.append([4, code, dy(param), dy(scale), n]); meta.append(('spec', code, param, scale, n))
+        if code in (28, 29, 30, 7, 1):
+            # (LinearSph and Exponential write sp[1] whatever n -- finding spectrum-n0-heap-overflow, tested under ASan below -- : n >= 1 here)
+            for n in ((1, 7, deg) if code in (30, 1) else (0, 1, 7, deg)):
+                cases.append([4, code, dy(param), dy(scale), n, []]); meta.append(('spec', code, param, scale, n))
+    # Markov: spectrum only (no covariance on R^n), default and explicit coefficients
+    for coeffs in ([], [F(1), F(1, 2)], [F(2), F(0), F(1, 4)]):
+        for scale in (F(1, 4), F(1)):
+            for n in (0, 5, 20):
+                cases.append([4, 27, dy(1), dy(scale), n, [dy(t) for t in coeffs]]); meta.append(('spec', 27, F(1), scale, n))
     cf = write_cases(ctx, 'sphere', cases)
     _, im = run_impl(ctx, exe, cf)
     if runner is None: return
-    _, mo = run_model(ctx, runner, cf)
+    mcases = [(c[:5] + [c[5] if c[5] else [dy(1)]]) if (c[0] == 4 and c[1] == 27) else c for c in cases]   # CovMarkov starts with the coefficient list (1)
+    cfm = write_cases(ctx, 'sphere_m', mcases)
+    _, mo = run_model(ctx, runner, cfm)
     if len(mo) != len(cases): print('ERROR: model runner returned %d results for %d sphere cases' % (len(mo), len(cases))); sys.exit(3)
     for k, c in enumerate(cases):
         what, code, param, scale, n = meta[k]
@@ -751,12 +762,61 @@ def sphere_tests(ctx, exe, runner, by_code, viol, quick):
                          % (e['name'], param, scale, n, a, float(v) if v is not None else None, float(enc[0])),
                          {'case': sx_str([3, c[1], c[2], c[3], c[4], [dy(a)]]), 'impl': str(v), 'model': [str(enc[0]), str(enc[1])]}); break
         else:
-            sp_i = [undy(t) for t in ii[3]]; sp_m = [unq(t) for t in mo[k]]
+            sp_i = [undy(t) for t in ii[3]]
+            if code == 27 and not c[5]: pass
+            if code == 1:          # enclosures
+                encs = [enc_of(t) for t in mo[k]]
+                if len(sp_i) != len(encs) or any(not inside(x, en, 1e-11) for x, en in zip(sp_i, encs)):
+                    viol('sphere:spectrum:' + short(e), 'ACovFunc::evalSpectrumOnSphere of %s (scale %s, n %d) = %s, the model gives %s'
+                         % (e['name'], scale, n, [float(x) if x is not None else None for x in sp_i][:8], [float(en[0]) if en else None for en in encs][:8]), {'case': sx_str(c)})
+                if any(x < 0 for x in sp_i) or (sp_i and abs(sum(sp_i) - 1) > F(1, 10 ** 12)):
+                    viol('sphere:spectrum-not-a-distribution:' + short(e), 'spectrum of %s on the sphere has a negative coefficient or does not sum to 1' % e['name'], {'case': sx_str(c)})
+                continue
+            sp_m = [unq(t) for t in mo[k]]
             if len(sp_i) != len(sp_m) or any(x is None or abs(x - y) > F(1, 10 ** 12) for x, y in zip(sp_i, sp_m)):
                 viol('sphere:spectrum:' + short(e), 'ACovFunc::evalSpectrumOnSphere of %s (param %s, scale %s, n %d) = %s, the model gives %s'
                      % (e['name'], param, scale, n, [float(x) if x is not None else None for x in sp_i][:8], [float(y) for y in sp_m][:8]), {'case': sx_str(c)}); continue
             if any(x < 0 for x in sp_i) or (sp_i and abs(sum(sp_i) - 1) > F(1, 10 ** 12)):
                 viol('sphere:spectrum-not-a-distribution:' + short(e), 'spectrum of %s on the sphere has a negative coefficient or does not sum to 1' % e['name'], {'case': sx_str(c)})
+
+def asan_spectrum_n0(ctx, by_code, viol):
+    """evalSpectrumOnSphere(n = 0, ...) of every structure with a spectrum, under AddressSanitizer (one process per structure)"""
+    # quick tier: only the sources that define a spectrum are compiled with -fsanitize=address, into the harness executable itself
+    # (its definitions take precedence over the ones of the shared library); thorough tier: the complete ASan library
+    exe_a = None
+    if ctx.quick():
+        import glob
+        srcs = [f for f in sorted(glob.glob(os.path.join(REPO, 'src', 'Covariances', 'Cov*.cpp'))) if '::_evaluateSpectrumOnSphere(' in open(f).read()]
+        fl, ld = lib_flags('lib')
+        outd = os.path.join(BUILD, 'harness'); os.makedirs(outd, exist_ok=True)
+        out = os.path.join(outd, 'C03_spectra_asan')
+        rc, o, e = sh(['g++'] + fl + ['-fsanitize=address', '-fno-omit-frame-pointer', '-g1', os.path.join(VERIF, 'harness', 'C03.cpp')] + srcs
+                      + ['-o', out] + ld + ['-fsanitize=address'], timeout=600)
+        if rc == 0: exe_a = out
+        else: ctx.log('ASan build of the spectrum sources failed', e[-1500:])
+        ctx.cov['asan_sources'] = [os.path.basename(f) for f in srcs]
+    else:
+        rc, out, err = sh([os.path.join(VERIF, 'bin', 'buildlib.sh'), 'asan'], timeout=3000)
+        if rc == 0: exe_a = build_harness(ctx, 'C03', 'asan')
+    if exe_a is None:
+        print('ERROR: the AddressSanitizer harness does not build; the memory-safety regression of the spectra cannot run', flush=True); sys.exit(3)
+    for code in (1, 7, 27, 28, 29, 30):
+        e = by_code.get(code)
+        if e is None: continue
+        c = [4, code, dy(1), dy(1), 0, []]
+        cf = write_cases(ctx, 'asan_spec_%d' % code, [c])
+        rc, res = run_impl(ctx, exe_a, cf, timeout=300, env={'ASAN_OPTIONS': 'detect_leaks=0:abort_on_error=0'})
+        log = open(cf + '.impl.log').read()
+        ctx.count(sx_str(c) + ':asan', True); ctx.dist('asan_spectrum_n0')
+        if 'AddressSanitizer' in log:
+            kind = 'heap-overflow' if 'heap-buffer-overflow' in log else 'memory-error'
+            where = re.search(r'#0 0x[0-9a-f]+ in (\S+).*?(/\S+?:\d+)', log)
+            viol('%s:spectrum-n0-%s' % (short(e), kind),
+                 "ACovFunc::evalSpectrumOnSphere(n = 0) of '%s' writes beyond its 1-element vector (AddressSanitizer: %s%s); without the sanitizer the write is silent"
+                 % (e['name'], kind, (' in %s at %s' % (where.group(1), os.path.basename(where.group(2)))) if where else ''),
+                 {'case': sx_str(c), 'asan': log[:1500], 'how': 'CovFactory::createCovFunc(ECov::%s, ctxt)->evalSpectrumOnSphere(0, 1.) linked against the -fsanitize=address build' % e['key']})
+        elif rc != 0 or not res:
+            viol('crash:sphere:' + short(e), 'evalSpectrumOnSphere(n = 0) of %s crashes' % e['name'], {'case': sx_str(c), 'log': log[:800]})
 
 # ----------------------------------------------------------------------------------------------- exact PSD decision
 def ldl_exact(K):
@@ -1013,6 +1073,12 @@ def psd_exploration(ctx, exe, entries, by_code, table_fail, guard_vacuous, viol,
                      % (c[1], pe['maxdim'], float(q), old_form, float(old_form)),
                      {'case': sx_str(c), 'points': WPTS, 'x': [str(t) for t in WX], 'xKx_exact_on_doubles': str(q), 'xKx_old_form': str(old_form), 'example': 'C03_old_penta_regression (coq/C03/Properties.v)',
                       'how': 'Model::addCovFromParam(ECov::PENTA, ranges = 32); K = model.evalCovMatrixSymmetric(db of the 7 points); x^T K x in exact rational arithmetic on the returned doubles'})
+    # regression cases of the corpus (kind 7): former witnesses, explored first so that they provide the replay of their key
+    for cc in load_corpus(ctx):
+        if cc[0] == 7 and len(cc[1][3]) == 1 and cc[1][3][0][0] in by_code:
+            c1 = cc[1]; e1 = by_code[c1[3][0][0]]
+            pts1 = [tuple(undy(t) for t in p) for p in c1[6]]
+            cases.insert(0, c1); meta.insert(0, (e1, c1[1], undy(c1[3][0][1]), undy(c1[3][0][3][0]), 'corpus', pts1, e1['maxdim'] is None or c1[1] <= e1['maxdim']))
     cf = write_cases(ctx, 'psd', cases)
     _, im = run_impl(ctx, exe, cf, timeout=3000)
     nneg = 0
